@@ -52,6 +52,8 @@ pub struct OdsCell {
     pub explicit_repeat: bool,
     pub val: OdsVal,
     pub formula: Option<String>,
+    /// table:formula attribute value already in its physical (escaped) form
+    pub formula_raw: Option<String>,
     /// display text (text:p) of a non-string cell; None = the lexical value
     pub display: Option<String>,
     /// write the value attribute before office:value-type (attribute order is free in XML)
@@ -72,6 +74,7 @@ impl OdsCell {
             explicit_repeat: false,
             val: OdsVal::None,
             formula: None,
+            formula_raw: None,
             display: None,
             value_first: false,
             extra_attrs: Vec::new(),
@@ -207,6 +210,9 @@ impl OdsCell {
         }
         if let Some(f) = &self.formula {
             out.push_str(&format!(" table:formula=\"{}\"", esc_attr(f)));
+        }
+        if let Some(f) = &self.formula_raw {
+            out.push_str(&format!(" table:formula=\"{}\"", f));
         }
         let (vt, vattr): (&str, Vec<(String, String)>) = match &self.val {
             OdsVal::None => ("", vec![]),
@@ -428,6 +434,7 @@ pub fn cell_from_token(t: &Value) -> OdsCell {
         explicit_repeat: t["x"].as_bool().unwrap_or(false),
         val,
         formula: if fm.is_empty() { None } else { Some(fm.to_string()) },
+        formula_raw: None,
         display: None,
         value_first: t["vf"].as_bool().unwrap_or(false),
         extra_attrs: Vec::new(),
